@@ -239,29 +239,25 @@ def r3_driver(ctx):
     name = 'chess::game::position_counter::run_count_positions'
     fn = facts.need_fn(name)
     ctx.touch(name)
-    ok = False
+    # the driver (with helpers of its own module inlined): every call of the counting routine receives Color::White and a board that is
+    # exactly the value Board::starting_position() returned (nothing touched it in between)
+    eng = Engine(facts, inline_filter=lambda n, c: n.startswith('chess::game::position_counter::'), max_paths=2000)
+    outs = eng.run(name)
     found = []
-    for b, t in fn.calls():
-        if facts.callee_name(t) == OUTER:
-            args = t['args']
-            col = args[3]
-            if col.get('k') == 'const':
-                found.append(col['value'].get('variant'))
-            else:
-                loc = col['place']['local']
-                for bb in fn.blocks:
-                    for s in bb['stmts']:
-                        if s['k'] == 'assign' and s['place']['local'] == loc and not s['place']['proj']:
-                            rv = s['rv']
-                            if rv['k'] == 'aggregate':
-                                found.append(rv.get('variant'))
-                            elif rv['k'] == 'use' and rv['op'].get('k') == 'const':
-                                found.append((rv['op'].get('value') or {}).get('variant'))
-                            else:
-                                found.append('?')
-            ok = found == ['White']
-    starts = any(facts.callee_name(t) == BOARD + '::starting_position' for b, t in fn.calls())
-    ctx.ob(rule, name, 'counts from Board::starting_position() for Color::White', ok and starts, found=found, expected='White')
+    ok = True
+    n_calls = 0
+    for o in outs:
+        for e in o.events:
+            if e[0] == 'call' and e[1] == OUTER:
+                n_calls += 1
+                col = e[2][3]
+                pre = dict(e[6]).get(2) if len(e) > 6 else None
+                fresh = pre is not None and pre[0] == 'call' and pre[1] == BOARD + '::starting_position'
+                found.append((show(col), show(pre)[:60] if pre is not None else None))
+                ok = ok and col == WHITE and fresh
+    ok = ok and n_calls > 0
+    found = sorted(set(found))[:3]
+    starts = ok
     # Board::default sets turn = White and starting_position does not change it
     d = '<chess::board::Board as std::default::Default>::default'
     outs = Engine(facts, opaque={n for n in facts.fns if 'PieceSet' in n or 'MoveInfo' in n or 'PositionInfo' in n}).run(d)
